@@ -8,8 +8,8 @@ CONSTANTS
   MaxInbound = 1
   MaxInst = 3
   MaxIncoming = 2
-  MaxDials = 2
-  MaxStops = 2
+  MaxDials = 0
+  MaxStops = 0
   MaxTries = 1
   DialTids = {"d1", "d2"}
   StopTids = {"s1", "s2"}
